@@ -254,7 +254,7 @@ func docxStyles(sheet []Style) string {
 		b.WriteString(`</w:styles>`)
 		return b.String()
 	}
-	for n := 1; n <= 6; n++ {
+	for n := 1; n <= 9; n++ {
 		fmt.Fprintf(&b, `<w:style w:type="paragraph" w:styleId="Heading%d"><w:name w:val="heading %d"/><w:basedOn w:val="Normal"/><w:next w:val="Normal"/><w:pPr><w:outlineLvl w:val="%d"/></w:pPr></w:style>`, n, n, n-1)
 		fmt.Fprintf(&b, `<w:style w:type="paragraph" w:customStyle="1" w:styleId="Custom%da"><w:name w:val="Custom %c A"/><w:basedOn w:val="Heading%d"/><w:next w:val="Normal"/></w:style>`, n, 'A'+n-1, n)
 		fmt.Fprintf(&b, `<w:style w:type="paragraph" w:customStyle="1" w:styleId="Custom%db"><w:name w:val="Custom %c B"/><w:basedOn w:val="Custom%da"/><w:next w:val="Normal"/></w:style>`, n, 'A'+n-1, n)
